@@ -315,6 +315,7 @@ inductive RemoveStep
   | close
   | guarded (thenDelete : Bool) (elseRaise : Bool)   -- `if self._removeable: os.remove(..) else: raise`
   | delete                                            -- unguarded `os.remove`
+  | ifOpen (s : RemoveStep)      -- a statement inside `if self._f:` (h5py handles are falsy once closed)
   deriving DecidableEq, Repr
 
 /-- PtTempo's choice of process-tensor class -/
@@ -799,16 +800,30 @@ inductive RemoveOutcome
   | deleted | refused | deletedUnentitled
   deriving DecidableEq, Repr
 
-/-- `remove()` on an object with the given `_removeable`: what happens to the path -/
-def removeRun (steps : List RemoveStep) (removeable : Bool) : Bool × Bool :=
-  -- (deleted?, raised?) ; statements after a raise are not executed
+/-- one statement of `remove()`; `acc` = (deleted?, raised?); `isOpen` = the h5py handle is
+    still open (on a closed handle `close()` raises: it reads `attrs` of a closed file) -/
+def removeStepRun (removeable isOpen : Bool) (acc : Bool × Bool) : RemoveStep → Bool × Bool
+  | .close => if isOpen then acc else (acc.1, true)
+  | .guarded thenDelete elseRaise =>
+    if removeable then (acc.1 || thenDelete, acc.2) else (acc.1, elseRaise)
+  | .delete => (true, acc.2)
+  | .ifOpen s => if isOpen then removeStepRun removeable isOpen acc s else acc
+
+/-- `remove()` on an object with the given `_removeable` whose handle is open or already
+    closed: (deleted?, raised?); statements after a raise are not executed -/
+def removeRunO (steps : List RemoveStep) (removeable isOpen : Bool) : Bool × Bool :=
   steps.foldl (fun (acc : Bool × Bool) s =>
-    if acc.2 then acc else
-    match s with
-    | .close => acc
-    | .guarded thenDelete elseRaise =>
-      if removeable then (acc.1 || thenDelete, acc.2) else (acc.1, elseRaise)
-    | .delete => (true, acc.2)) (false, false)
+    if acc.2 then acc else removeStepRun removeable isOpen acc s) (false, false)
+
+/-- `remove()` on a still-open object -/
+def removeRun (steps : List RemoveStep) (removeable : Bool) : Bool × Bool :=
+  removeRunO steps removeable true
+
+/-- is the file gone after `close(); remove()` (seq = false) / `remove(); remove()` (seq = true)? -/
+def removeSeqDeletes (steps : List RemoveStep) (removeable : Bool) (twice : Bool) : Bool :=
+  if twice then
+    (removeRunO steps removeable true).1 || (removeRunO steps removeable false).1
+  else (removeRunO steps removeable false).1
 
 /-- `_removeable` of a `FileProcessTensor(mode, filename)`; `none` = constructor raises -/
 def removeableOf (F : Flags) (mode : String) (hasFilename : Bool) : Option Bool :=
